@@ -10,12 +10,22 @@ import hgxv
 
 RULE = ("seven routines, one case = one call with explicit arguments and explicit ambient RNG seeds (the draws are "
         "recorded by patching random.* / np.random.* and replayed in the Lean model): random_hypergraph / "
-        "random_uniform_hypergraph (n 0-9, 1-3 sizes, counts 0-6, seed given or not), scale_free_hypergraph (n 3-10, "
-        "feasible counts, correlated or not, corr_target omitted / 0..1, num_shuffles, default arguments), HOADmodel "
-        "(N 2-7, 1-2 orders, dyadic activities incl. 0 and 1, time 0-6), add_random_edge(s) and random_shuffle(_all_orders) "
-        "on generated hypergraphs (2-9 nodes, integer or string labels, weighted with metadata or not, isolated nodes; "
-        "order= or size=, inplace or not, p in {0, 1/16 .. 1}, preserve_degree, seed) plus a malformed stream (both/neither "
-        "of order and size, p outside [0,1], size larger than the node set, invalid scale-free argument combinations). "
+        "random_uniform_hypergraph (n 0-9, 1-3 sizes in any order, counts 0-6, seed None / 0 / small / beyond 2**64 / negative), "
+        "scale_free_hypergraph (n 0-10, sizes 1-4, feasible counts incl. 0 and near-saturated ones, scale map with its keys in "
+        "another order, correlated or not, corr_target omitted / 0..1, num_shuffles, default arguments), HOADmodel "
+        "(N 0-7, 0-2 orders in any order, dyadic activities incl. 0 and 1, time 0-6 or the default; activity vectors of "
+        "length N, LONGER than N with active surplus entries, shorter than N), add_random_edge(s) and "
+        "random_shuffle(_all_orders) on hypergraphs built through a history (temporary hyperedges / node removed again) with "
+        "0-9 nodes whose labels are small ints, ints around 2**53 / 2**63 / 2**64 mixed with small and negative ones, "
+        "floats, ints mixed with floats, letters, numeric strings or ragged tuples - every label a freshly constructed "
+        "object; weighted with metadata or not, isolated nodes; order= or size=, inplace or not, p in {0, 1/16 .. 1}, "
+        "preserve_degree, seed None / 0 / other. ARGUMENT TYPES vary independently: ints as Python / numpy int64 / int32, "
+        "counts also as 3.0 where the routine converts them, p as int 0/1 / float / numpy float64 / float32, "
+        "maps as dict / OrderedDict / read-only proxy, activity vectors as list / tuple / numpy float64, int "
+        "arrays / dict node->activity / Fractions. After every inplace=False call the RESULT is mutated (in-place "
+        "shuffle, add / remove hyperedge, metadata) and the argument is inspected again. Plus a malformed stream "
+        "(both/neither of order and size, p outside [0,1], size larger than the node set, invalid scale-free argument "
+        "combinations, activity vector too short, order above N). "
         "A case is distinct by routine + arguments + recorded draws; non-trivial: random = a duplicate sample collapsed or "
         ">= 2 sizes; scale-free = >= 2 hyperedges; HOAD = at least one hyperlink emitted; add = a hyperedge was added or "
         "re-inserted on a weighted/metadata input; shuffle = some hyperedge replaced and some kept, or p = 0 on a weighted "
@@ -23,10 +33,11 @@ RULE = ("seven routines, one case = one call with explicit arguments and explici
 ASSUMPTIONS = [
     "sampler contracts (trusted): random.sample(pop,k) and np.random.choice(pop,k,replace=False) return k distinct members of pop; random.random() in [0,1); seeding a source determines its later draws",
     "requests to the rejection loops are feasible (count <= C(n,size)); termination with probability one is not proved, the harness bounds every call by an alarm",
-    "labels are mapped to their rank in sorted order; weights are small integers; metadata are tokens {'k': t}",
-    "HOADmodel: activity vectors have length N and order <= N; activities are dyadic so that `act > random()` is exact",
+    "labels are mapped to their rank in sorted order (labels of one hypergraph are mutually comparable); weights are small integers; metadata are tokens {'k': t}",
+    "HOADmodel: admissible = every activity vector has AT LEAST N entries (surplus ignored) and order <= N; shorter vectors / larger orders are compared with the model's `raised` only; activities are dyadic so that `act > random()` is exact",
     "p is dyadic so that int(p * num_edges) equals the exact floor",
     "node / incidence metadata are not in the model (node metadata are checked by the oracles only)",
+    "object identity: hg.copy() yields a new object (model: finishObj allocates a fresh id); its depth is checked by mutating the result",
 ]
 TRUSTED = ["recording of draws by attribute patching (hgxv.Recorder): the routines look up random.sample, random.random, "
            "random.seed, np.random.seed, np.random.choice, np.random.exponential at call time"]
@@ -58,13 +69,74 @@ def limited(f, secs=8.0):
 
 
 def norm(x):
-    """numpy scalars -> python"""
+    """numpy scalars -> python (inside tuple labels too)"""
     try:
         import numpy as np
         if isinstance(x, np.generic):
             return x.item()
     except Exception:
         pass
+    if isinstance(x, tuple):
+        return tuple(norm(y) for y in x)
+    return x
+
+
+def mk_int(x, kind):
+    """an integer argument as the caller may hold it: Python int, numpy int64 / int32"""
+    import numpy as np
+    if x is None or kind in (None, "py") or abs(x) >= 2 ** 63:
+        return x
+    if kind == "np32" and abs(x) >= 2 ** 31:
+        kind = "np64"
+    return {"np64": np.int64, "np32": np.int32}[kind](x)
+
+
+def mk_count(x, kind):
+    """a count as scale_free_hypergraph accepts it (it applies int(..)): int, numpy int, 3.0"""
+    if kind == "float":
+        return float(x)
+    return mk_int(x, kind)
+
+
+def mk_float(x, kind):
+    """a real argument: Python float, int (only for integral values), numpy float64 / float32 (x is dyadic: exact)"""
+    import numpy as np
+    if x is None:
+        return None
+    if kind == "int" and float(x) == int(x):
+        return int(x)
+    if kind == "np64f":
+        return np.float64(x)
+    if kind == "np32f":
+        return np.float32(x)
+    return float(x)
+
+
+def mk_map(items, kind):
+    """a size -> value map: dict, OrderedDict, read-only proxy (insertion order = the order of `items`)"""
+    import collections
+    import types
+    d = dict(items)
+    if kind == "odict":
+        return collections.OrderedDict(items)
+    if kind == "proxy":
+        return types.MappingProxyType(d)
+    return d
+
+
+def lab(x):
+    """label of a spec (JSON-able: int, float, str, list for a tuple label) -> a FRESHLY constructed label object:
+    no two uses of a label share the object (ints > 256, run-time strings, floats, tuples)"""
+    if isinstance(x, (list, tuple)):
+        return tuple(lab(y) for y in x)
+    if isinstance(x, bool):
+        return x
+    if isinstance(x, int):
+        return int(str(x))
+    if isinstance(x, float):
+        return float(repr(x))
+    if isinstance(x, str):
+        return "".join(list(x))
     return x
 
 
@@ -110,21 +182,87 @@ def tok_of(md):
 
 
 def build(spec):
-    """spec: dict(labels, weighted, edges=[(nodes, w, tok)], node_md={label: tok}) -> Hypergraph"""
+    """spec: dict(labels, weighted, edges=[(nodes, w, tok)], node_md={position of the label: tok}, temp=[nodes..],
+    temp_node=label|None) -> Hypergraph.  Every label is a fresh object at every use.  History: the hyperedges of `temp`
+    are inserted first and removed at the end, `temp_node` is added (with a hyperedge) and removed again - so that the
+    internal ids have gaps and the instance is not a freshly filled one."""
     from hypergraphx import Hypergraph
     h = Hypergraph(weighted=spec["weighted"])
-    for x in spec["labels"]:
-        h.add_node(x, metadata=md_of(spec["node_md"].get(str(x), 0)) or None)
+    for pos, x in enumerate(spec["labels"]):
+        h.add_node(lab(x), metadata=md_of(spec["node_md"].get(str(pos), 0)) or None)
+    final = set(tuple(sorted(lab(n) for n in nodes)) for nodes, w, tok in spec["edges"])
+    temps = []
+    for t in spec.get("temp", []):
+        c = tuple(sorted(lab(n) for n in t))
+        if c not in final and c not in [tuple(sorted(u)) for u in temps]:
+            temps.append(tuple(lab(n) for n in t))
+    for t in temps:
+        h.add_edge(tuple(lab(n) for n in t), weight=7 if spec["weighted"] else None, metadata={"k": 5})
+    tn = spec.get("temp_node")
+    if tn is not None and spec["labels"]:
+        h.add_node(lab(tn))
+        h.add_edge((lab(tn), lab(spec["labels"][0])), weight=2 if spec["weighted"] else None)
     for nodes, w, tok in spec["edges"]:
-        h.add_edge(tuple(nodes), weight=w if spec["weighted"] else None, metadata=md_of(tok))
+        h.add_edge(tuple(lab(n) for n in nodes), weight=w if spec["weighted"] else None, metadata=md_of(tok))
+    if tn is not None and spec["labels"]:
+        h.remove_node(lab(tn), keep_edges=False)
+    for t in temps:
+        h.remove_edge(tuple(lab(n) for n in t))
     return h
+
+
+def prepare(case):
+    """the object the checked call works on: built through its history (`build`), then passed through the generators
+    themselves (`prefix`): earlier add_random_edges / random_shuffle(_all_orders) calls, in place (the mutated original)
+    or not (then the RETURNED copy is the object under test)"""
+    from hypergraphx.generation.random import add_random_edges, random_shuffle, random_shuffle_all_orders
+    hg = build(case["hg"])
+    for op in case.get("prefix", []):
+        ambient(*op["amb"])
+        if op["op"] == "adds":
+            r = add_random_edges(hg, op["k"], size=op["size"], inplace=op["inplace"])
+        elif op["op"] == "shuffle":
+            r = random_shuffle(hg, size=op["size"], p=op["p"], inplace=op["inplace"])
+        else:
+            r = random_shuffle_all_orders(hg, p=op["p"], inplace=op["inplace"])
+        if not op["inplace"]:
+            hg = r
+    return hg
+
+
+def prepared(case, secs):
+    """prepare(case) under the alarm: ('ok', hg) | ('timeout', None); an exception while the object is built through
+    the routines is a failing input (reported by `attempt`)"""
+    st, hg = limited(lambda: prepare(case), secs)
+    if st == "exc":
+        raise ValueError("building the argument through " + repr(case.get("prefix")) + " failed: " + str(hg))
+    return st, hg
+
+
+def gen_prefix(rng, spec):
+    n = len(spec["labels"])
+    ops = []
+    if n < 2 or rng.random() > 0.25:
+        return ops
+    for _ in range(rng.randint(1, 2)):
+        kind = rng.choice(["adds", "shuffle", "shuffle_all"])
+        op = {"op": kind, "inplace": rng.random() < 0.5, "amb": [rng.randint(0, 10 ** 6), rng.randint(0, 10 ** 6)]}
+        if kind == "adds":
+            op.update({"k": rng.randint(1, 2), "size": rng.randint(1, min(n - 1, 3))})   # C(n, size) >= 2: feasible
+        else:
+            op.update({"size": rng.randint(1, min(n, 3)), "p": rng.choice([0.5, 1.0, 1.0])})
+        ops.append(op)
+    return ops
 
 
 def snapshot(h, rank):
     """(weighted, sorted node ranks, {edge ranks: (w, tok)}, {node rank: md}) ; unknown labels get rank 10**6+"""
     def rk(x):
         x = norm(x)
-        return rank.get(x, 10 ** 6 + (abs(hash(x)) % 1000))
+        try:
+            return rank.get(x, 10 ** 6 + (abs(hash(repr(x))) % 1000))
+        except TypeError:
+            return 10 ** 6 + 999
     nodes = sorted(rk(x) for x in h.get_nodes())
     edges = {}
     for e in h.get_edges():
@@ -162,28 +300,102 @@ def opt(x):
     return "-1" if x is None else str(x)
 
 
+BIG = [2 ** 53 + 1, 2 ** 53 + 2, 2 ** 63 - 1, 2 ** 63, 2 ** 63 + 5, 2 ** 64 - 1, 2 ** 64 + 3, 2 ** 70, -(2 ** 63) - 2, -3, -1, 0, 5, 300]
+
+
+def gen_labels(rng, n, kind):
+    """n (+1 spare) distinct, mutually comparable labels of one kind, JSON-able"""
+    m = n + 1
+    if kind == "letters":
+        return rng.sample([chr(97 + i) * rng.randint(1, 2) for i in range(20)], m)
+    if kind == "numstr":
+        return [str(x) for x in rng.sample(range(0, 130), m)]
+    if kind == "bigint":
+        return rng.sample(BIG, m)
+    if kind == "float":
+        return [x / 4 for x in rng.sample(range(-8, 60), m)]          # 0.25, 2.5, also integral ones like 3.0
+    if kind == "mixednum":
+        ints = rng.sample(range(0, 20), m)
+        return [x if rng.random() < 0.5 else x + rng.choice([0.25, 0.5, 0.75]) for x in ints]
+    if kind == "tuple":
+        pool = [[a] for a in range(4)] + [[a, b] for a in range(3) for b in range(3)] + [[a, b, 1] for a in range(2) for b in range(3)]
+        return rng.sample(pool, m)
+    return rng.sample(range(0, 30), m)
+
+
+LABEL_KINDS = ["int"] * 10 + ["letters", "letters", "numstr", "numstr", "bigint", "bigint", "float", "float", "mixednum", "tuple", "tuple"]
+
+
 def gen_hg(rng, shuffle_like=False):
-    n = rng.randint(2, 9)
-    if rng.random() < 0.15:
-        labels = sorted(rng.sample([chr(97 + i) * rng.randint(1, 2) for i in range(20)], n))
-    else:
-        labels = sorted(rng.sample(range(0, 30), n))
+    n = rng.choice([0, 1, 2, 2, 3, 3, 4, 4, 5, 5, 6, 6, 7, 8, 9])
+    kind = rng.choice(LABEL_KINDS)
+    labels = gen_labels(rng, n, kind)
+    spare, labels = labels[-1], sorted(labels[:-1], key=lab)
+    if rng.random() < 0.3:
+        rng.shuffle(labels)                                       # nodes are not inserted in sorted order
     weighted = rng.random() < 0.55
     edges, seen = [], set()
     sizes = rng.sample([1, 2, 2, 3, 3, 4], rng.randint(1, 3)) if shuffle_like else [1, 2, 2, 3, 3, 4]
-    for _ in range(rng.randint(0, 10) if not shuffle_like else rng.randint(2, 12)):
+
+    def some_edge():
         s = min(n, rng.choice(sizes))
-        e = tuple(sorted(rng.sample(labels, s)))
-        if e in seen:
+        return sorted(rng.sample(labels, s), key=lab)
+    for _ in range(0 if n == 0 else (rng.randint(0, 10) if not shuffle_like else rng.randint(2, 12))):
+        e = some_edge()
+        if repr(e) in seen:
             continue
-        seen.add(e)
-        edges.append((list(e), rng.randint(1, 9) if weighted else 1, rng.choice([0, 0, 1, 2, 3, 4, 5])))
-    node_md = {str(x): rng.randint(1, 5) for x in labels if rng.random() < 0.3}
-    return {"labels": labels, "weighted": weighted, "edges": edges, "node_md": node_md}
+        seen.add(repr(e))
+        edges.append((e, rng.randint(1, 9) if weighted else 1, rng.choice([0, 0, 1, 2, 3, 4, 5])))
+    node_md = {str(pos): rng.randint(1, 5) for pos in range(n) if rng.random() < 0.3}
+    spec = {"labels": labels, "weighted": weighted, "edges": edges, "node_md": node_md, "label_kind": kind}
+    if n >= 2 and rng.random() < 0.35:
+        spec["temp"] = [some_edge() for _ in range(rng.randint(1, 3))]
+    if n >= 1 and rng.random() < 0.25:
+        spec["temp_node"] = spare
+    return spec
 
 
 def rank_of(spec):
-    return {x: i for i, x in enumerate(sorted(spec["labels"]))}
+    return {lab(x): i for i, x in enumerate(sorted(spec["labels"], key=lab))}
+
+
+def check_independent(ctx, case, hg, ret, rank, before, before_inc, what):
+    """'with inplace=False leave their argument untouched': the returned hypergraph must be ANOTHER object than the
+    argument, and whatever the caller does to the returned hypergraph afterwards (in-place shuffle, add / remove a
+    hyperedge, a node, metadata edits) the argument keeps its nodes, hyperedges, weights, metadata and incidence
+    structure.  Runs after all other comparisons (the returned object is used up by it)."""
+    from hypergraphx.generation.random import random_shuffle_all_orders
+    if ret is None:
+        return
+    if ret is hg:
+        ctx.violation(case, f"{what}(inplace=False) returned its argument itself, not a new hypergraph: a later change of "
+                            f"the result changes the argument")
+        return
+    ambient(case["ambient"][0] + 5, case["ambient"][1] + 7)
+    edges = list(ret.get_edges())
+    nodes = list(ret.get_nodes())
+    pokes = [lambda: random_shuffle_all_orders(ret, p=1.0, inplace=True),
+             lambda: [ret.get_edge_metadata(e).update({"poked": 1}) for e in list(ret.get_edges())],
+             lambda: [ret.get_node_metadata(x).update({"poked": 1}) for x in nodes],
+             lambda: [ret.set_weight(e, 11) for e in list(ret.get_edges())[:2]],
+             lambda: ret.add_edge(tuple(nodes[:5])) if nodes else None,
+             lambda: ret.remove_edge(list(ret.get_edges())[0]),
+             lambda: ret.add_node("poke-node"),
+             lambda: ret.add_edge(("poke-node", "poke-node-2")),
+             lambda: ret.remove_node(nodes[-1], keep_edges=False) if nodes else None,
+             lambda: ret.remove_edges(list(ret.get_edges()))]
+    for f in pokes:
+        limited(f, 4.0)            # a poke that fails is no observation about the routine
+    after = snapshot(hg, rank)
+    if after != before:
+        ctx.violation(case, f"{what}(inplace=False): mutating the RETURNED hypergraph changed the argument: {before} -> {after}")
+    elif incidence_view(hg) != before_inc:
+        ctx.violation(case, f"{what}(inplace=False): mutating the RETURNED hypergraph changed the incidence structure of "
+                            f"the argument: {before_inc} -> {incidence_view(hg)}")
+
+
+def obj_kind(hg, ret):
+    return "none" if ret is None else ("same" if ret is hg else "fresh")
 
 
 def unexpected_sources(log, allowed):
@@ -202,11 +414,23 @@ def check_random(ctx, drv, case, secs=8.0):
     from hypergraphx.generation.random import random_hypergraph, random_uniform_hypergraph
     n, sizes, counts, seed, uniform = case["n"], case["sizes"], case["counts"], case["seed"], case["uniform"]
     req = dict(zip(sizes, counts))
+    kinds = case.get("kinds", {})
 
     def call():
+        # the arguments are built anew for every call: ints as Python / numpy ints, the map as dict / OrderedDict / proxy
+        nn = mk_int(n, kinds.get("n"))
         if uniform:
-            return random_uniform_hypergraph(n, sizes[0], counts[0], seed)
-        return random_hypergraph(n, dict(req), seed)
+            a = (nn, mk_int(sizes[0], kinds.get("key")), mk_int(counts[0], kinds.get("count")), seed)
+            if kinds.get("kw"):
+                return random_uniform_hypergraph(num_nodes=a[0], size=a[1], num_edges=a[2], seed=a[3])
+            return random_uniform_hypergraph(*a)
+        m = mk_map([(mk_int(s, kinds.get("key")), mk_int(c, kinds.get("count"))) for s, c in zip(sizes, counts)],
+                   kinds.get("map"))
+        if kinds.get("kw"):
+            return random_hypergraph(num_nodes=nn, num_edges_by_size=m, seed=seed)
+        if seed is None and kinds.get("omit_seed"):
+            return random_hypergraph(nn, m)
+        return random_hypergraph(nn, m, seed)
 
     def observe(h):
         return (sorted(plain(h.get_nodes())), sorted(tuple(plain(e)) for e in h.get_edges()))
@@ -216,7 +440,7 @@ def check_random(ctx, drv, case, secs=8.0):
         st, h = limited(call, secs)
     log = rec.log
     admissible = all(c <= 0 or s <= n for s, c in req.items())
-    key = ("random", n, tuple(sizes), tuple(counts), seed, uniform)
+    key = ("random", n, tuple(sizes), tuple(counts), seed, uniform, repr(sorted(kinds.items())))
     if st == "timeout":
         return "timeout"
     if st == "exc":
@@ -230,7 +454,7 @@ def check_random(ctx, drv, case, secs=8.0):
         return
     nodes, edges = observe(h)
     # ---- property oracles
-    if nodes != list(range(n)):
+    if nodes != list(range(n)) or not all(type(x) is int for x in nodes):
         ctx.violation(case, f"nodes {nodes} are not exactly 0..{n-1}")
     for e in edges:
         if len(e) not in req or req[len(e)] < 1:
@@ -242,6 +466,9 @@ def check_random(ctx, drv, case, secs=8.0):
         if k > max(c, 0) or (c >= 1 and k < 1):
             ctx.violation(case, f"{k} hyperedges of size {s}, requested {c}")
     if seed is not None:
+        # the caller goes on working with the first result; the second call with the same seed must not hand out (parts
+        # of) the same object again
+        limited(lambda: (h.add_node("poke"), h.add_edge(("poke", "poke2")), h.remove_edges(list(h.get_edges())[:1])), 4.0)
         a2 = case["ambient"]
         ambient(a2[0] + 17, a2[1] + 29)
         st2, h2 = limited(call, secs)
@@ -254,6 +481,8 @@ def check_random(ctx, drv, case, secs=8.0):
     seeded = [a for (src, name, a, k, r) in log if (src, name) == ("py", "seed")]
     ctx.case(key + (tuple(map(tuple, draws)),), len(sizes) >= 2 or len(edges) < sum(max(c, 0) for c in counts), sample=case)
     ctx.count("random_cases")
+    ctx.count("random_seed0", 1 if seed == 0 else 0)
+    ctx.count("random_numpy_args", 1 if any(str(v).startswith("np") for v in kinds.values()) else 0)
     if drv is None:
         return
     if bad:
@@ -266,16 +495,20 @@ def check_random(ctx, drv, case, secs=8.0):
         pos += max(c, 0)
     want = " ".join(["0", hgxv.enc_list(nodes), hgxv.enc_lists(edges), hgxv.enc_list([1] * len(edges)),
                      hgxv.enc_list([0] * len(edges))])
+    mseed = None if seed is None else abs(seed) % 10 ** 9      # the model only distinguishes seeded / not seeded
     got = drv.batch([f"random {n} {hgxv.enc_list(sizes)} {hgxv.enc_list(counts)} {hgxv.enc_listss(groups)}",
-                     f"randomM {n} {hgxv.enc_list(sizes)} {hgxv.enc_list(counts)} {opt(seed)} {hgxv.enc_lists(draws)}"])
+                     f"randomM {n} {hgxv.enc_list(sizes)} {hgxv.enc_list(counts)} {opt(mseed)} {hgxv.enc_lists(draws)}"])
     if got[0] != want:
         ctx.disagree(case, f"random: model {got[0]!r}, implementation {want!r}")
     if got[1] != want + " left 0":
         ctx.disagree(case, f"randomM (program over named sources): model {got[1]!r}, implementation {want + ' left 0'!r}")
 
 
+INT_KINDS = ["py", "py", "py", "np64", "np32"]
+
+
 def gen_random(rng, malformed=False):
-    n = rng.choice([0, 1, 2, 3, 4, 5, 5, 6, 6, 7, 8, 9])
+    n = rng.choice([0, 1, 1, 2, 2, 3, 4, 5, 5, 6, 6, 7, 8, 9])
     uniform = rng.random() < 0.3
     k = 1 if uniform else rng.randint(1, 3)
     hi = max(1, min(n, 5))
@@ -288,24 +521,42 @@ def gen_random(rng, malformed=False):
         counts[0] = max(1, counts[0])
         sizes = list(dict.fromkeys(sizes))
         counts = counts[:len(sizes)]
-    seed = rng.choice([None, rng.randint(0, 10 ** 6), rng.randint(0, 50)])
+    seed = rng.choice([None, None, 0, 0, 1, rng.randint(0, 10 ** 6), rng.randint(0, 50), 2 ** 64 + rng.randint(0, 9), -7])
+    kinds = {"n": rng.choice(INT_KINDS), "key": rng.choice(INT_KINDS), "count": rng.choice(INT_KINDS),
+             "map": rng.choice(["dict", "dict", "odict", "proxy"]), "kw": rng.random() < 0.2,
+             "omit_seed": rng.random() < 0.5}
     return {"routine": "random", "n": n, "sizes": sizes, "counts": counts, "seed": seed, "uniform": uniform,
-            "ambient": [rng.randint(0, 10 ** 6), rng.randint(0, 10 ** 6)]}
+            "kinds": kinds, "ambient": [rng.randint(0, 10 ** 6), rng.randint(0, 10 ** 6)]}
 
 
 # ------------------------------------------------------------------------------------------------
 # scale_free_hypergraph
 
 def check_scale_free(ctx, drv, case, secs=8.0):
+    import numpy as np
     from hypergraphx.generation.scale_free import scale_free_hypergraph
     n, sizes, counts, skeys, scales = case["n"], case["sizes"], case["counts"], case["scale_keys"], case["scales"]
-    kw = dict(case["kwargs"])
+    kinds = case.get("kinds", {})
+    kw0 = dict(case["kwargs"])
     ebs = dict(zip(sizes, counts))
-    sbs = dict(zip(skeys, scales))
 
     def call():
-        return scale_free_hypergraph(n, dict(ebs), dict(sbs), **kw)
+        # arguments built anew: sizes / counts / n as Python or numpy ints (counts also 3.0 / '3': the routine applies
+        # int(..)), the scale map with its keys in ITS OWN order and int / float / numpy scales
+        e = mk_map([(mk_int(s, kinds.get("key")), mk_count(c, kinds.get("count"))) for s, c in zip(sizes, counts)],
+                   kinds.get("map"))
+        sc = mk_map([(mk_int(k, kinds.get("skey")), mk_float(v, kinds.get("scale"))) for k, v in zip(skeys, scales)],
+                    kinds.get("smap"))
+        kw = dict(kw0)
+        if kw.get("corr_target") is not None:
+            kw["corr_target"] = mk_float(kw["corr_target"], kinds.get("target"))
+        if "num_shuffles" in kw:
+            kw["num_shuffles"] = mk_int(kw["num_shuffles"], kinds.get("shuffles"))
+        if kinds.get("positional") and set(kw) == {"correlated", "corr_target", "num_shuffles"}:
+            return scale_free_hypergraph(mk_int(n, kinds.get("n")), e, sc, kw["correlated"], kw["corr_target"], kw["num_shuffles"])
+        return scale_free_hypergraph(mk_int(n, kinds.get("n")), e, sc, **kw)
 
+    kw = kw0
     ambient(*case["ambient"])
     with recorder() as rec:
         st, h = limited(call, secs)
@@ -316,7 +567,7 @@ def check_scale_free(ctx, drv, case, secs=8.0):
     valid = case["valid"]
     line = (f"scalefree {n} {hgxv.enc_list(sizes)} {hgxv.enc_list(counts)} {hgxv.enc_list(skeys)} {int(correlated)} "
             f"{'none' if target is None else hgxv.enc_num(Fraction(target))} {shuffles} ")
-    key = ("sf", n, tuple(sizes), tuple(counts), tuple(skeys), correlated, target, shuffles)
+    key = ("sf", n, tuple(sizes), tuple(counts), tuple(skeys), correlated, target, shuffles, repr(sorted(kinds.items())))
     if st == "timeout":
         return "timeout"
     if st == "exc":
@@ -352,12 +603,13 @@ def check_scale_free(ctx, drv, case, secs=8.0):
     for (src, name, a, k, r) in log:
         if (src, name) == ("np", "exponential"):
             groups.append([])
-        elif (src, name) == ("np", "choice") and not isinstance(a[0], (int,)) and groups:
+        elif (src, name) == ("np", "choice") and not isinstance(a[0], (int, np.integer)) and groups:
             groups[-1].append(r)
     bad = unexpected_sources(log, {("np", "exponential"), ("np", "choice")})
     ctx.case(key + (repr(groups),), len(edges) >= 2, sample=case)
     ctx.count("scale_free_cases")
     ctx.count("scale_free_defaults", 0 if kw else 1)
+    ctx.count("scale_free_scale_keys_in_other_order", 1 if list(skeys) != list(sizes) else 0)
     if drv is None:
         return
     if bad:
@@ -370,12 +622,15 @@ def check_scale_free(ctx, drv, case, secs=8.0):
 
 
 def gen_scale_free(rng, malformed=False):
-    n = rng.randint(3, 10)
+    n = rng.choice([0, 1, 2, 3, 3, 4, 4, 5, 5, 6, 6, 7, 8, 9, 10])
     k = rng.randint(1, 3)
-    sizes = rng.sample(range(2, min(4, n - 1) + 1), min(k, min(4, n - 1) - 1))
-    counts = [rng.randint(0, min(4, math.comb(n, s) // 2)) for s in sizes]
+    hi = max(1, min(4, n))
+    lo = 1 if (n <= 2 or rng.random() < 0.3) else 2
+    sizes = rng.sample(range(lo, hi + 1), min(k, hi - lo + 1))
+    counts = [rng.randint(0, min(4, math.comb(n, s) // 2)) if rng.random() < 0.8 else min(1, math.comb(n, s))
+              for s in sizes]
     near_sat = False
-    if rng.random() < 0.25 and n <= 7:
+    if rng.random() < 0.25 and 3 <= n <= 7:
         # near saturation: between half and all of the possible hyperedges of a size (feasible, but the rejection loop
         # needs many draws)
         counts = [rng.randint(math.comb(n, s) // 2, min(max(math.comb(n, s) // 2, (17 * math.comb(n, s)) // 20), 21))
@@ -383,7 +638,14 @@ def gen_scale_free(rng, malformed=False):
         near_sat = True
     scales = [rng.choice([0.5, 1.0, 2.0, 3.5]) for _ in sizes]
     skeys = list(sizes)
+    if rng.random() < 0.5:
+        # the scale map lists the sizes in its own order
+        perm = list(range(len(sizes)))
+        rng.shuffle(perm)
+        skeys, scales = [skeys[i] for i in perm], [scales[i] for i in perm]
     mode = rng.choice(["default", "default", "uncorr", "target", "target", "shuffles", "corr_plain"])
+    if n < 2 and mode in ("target", "shuffles"):
+        mode = "uncorr"         # the swaps need two nodes
     kw = {}
     if mode == "uncorr":
         kw = {"correlated": False}
@@ -414,41 +676,86 @@ def gen_scale_free(rng, malformed=False):
             skeys, scales = skeys + [7], scales + [1.0]
         elif bad == "neg_count":
             counts[0] = -1
+    kinds = {"n": rng.choice(INT_KINDS), "key": rng.choice(INT_KINDS), "skey": rng.choice(INT_KINDS),
+             "count": rng.choice(["py", "py", "py", "np64", "np32", "float"]),
+             "scale": rng.choice(["float", "float", "int", "np64f", "np32f"]), "target": rng.choice(["float", "int", "np64f"]),
+             "shuffles": rng.choice(INT_KINDS), "map": rng.choice(["dict", "dict", "odict"]),
+             "smap": rng.choice(["dict", "dict", "odict", "proxy"]), "positional": rng.random() < 0.3}
     return {"routine": "scale_free", "n": n, "sizes": sizes, "counts": counts, "scale_keys": skeys, "scales": scales,
-            "kwargs": kw, "valid": valid, "near_saturation": near_sat and valid,
+            "kwargs": kw, "valid": valid, "near_saturation": near_sat and valid, "kinds": kinds,
             "ambient": [rng.randint(0, 10 ** 6), rng.randint(0, 10 ** 6)]}
 
 
 # ------------------------------------------------------------------------------------------------
 # HOADmodel
 
+def mk_vector(v16, kind, perm_seed=0):
+    """an activity vector (sixteenths) as the caller may hold it.  list / tuple of floats (0 and 1 also as ints),
+    numpy float64 array (not float32: numpy would compare the coin in float32 precision), numpy int array (only 0/1 activities), dict node -> activity with its keys in any
+    order, list of Fractions"""
+    import numpy as np
+    vals = [Fraction(a, 16) for a in v16]
+    fl = [float(a) for a in vals]
+    if kind == "tuple":
+        return tuple(fl)
+    if kind == "list01":
+        return [int(a) if a in (0, 1) else float(a) for a in vals]
+    if kind == "np64":
+        return np.array(fl, dtype=np.float64)
+    if kind == "npint" and all(a in (0, 1) for a in vals):
+        return np.array([int(a) for a in vals], dtype=np.int64)
+    if kind == "dict":
+        idx = list(range(len(fl)))
+        random.Random(perm_seed).shuffle(idx)
+        return {i: fl[i] for i in idx}
+    if kind == "frac":
+        return list(vals)
+    return fl
+
+
 def check_hoad(ctx, drv, case, secs=8.0):
     from hypergraphx.generation.activity_driven import HOADmodel
     N, orders, time = case["N"], case["orders"], case["time"]
-    acts = [[Fraction(a) for a in v] for v in case["acts16"]]
-    acts = [[a / 16 for a in v] for v in acts]
-    apo = {o: [float(a) for a in v] for o, v in zip(orders, acts)}
+    kinds = case.get("kinds", {})
+    vkinds = kinds.get("vec", ["list"] * len(orders))
+    acts = [[Fraction(a, 16) for a in v] for v in case["acts16"]]
+    t_eff = 100 if time is None else time           # time=None: the default of the routine
+
+    def call():
+        # the activity vectors may be LONGER than N (the routine reads the entries 0..N-1 only) or shorter (IndexError)
+        apo = mk_map([(mk_int(o, kinds.get("key")), mk_vector(v, vk, case["ambient"][0]))
+                      for o, v, vk in zip(orders, case["acts16"], vkinds)], kinds.get("map"))
+        nn = mk_int(N, kinds.get("n"))
+        if time is None:
+            return HOADmodel(nn, apo)
+        if kinds.get("positional"):
+            return HOADmodel(nn, apo, mk_int(time, kinds.get("time")))
+        return HOADmodel(nn, apo, time=mk_int(time, kinds.get("time")))
 
     ambient(*case["ambient"])
     with recorder() as rec:
-        st, T = limited(lambda: HOADmodel(N, apo, time=time), secs)
+        st, T = limited(call, secs)
     log = rec.log
-    key = ("hoad", N, tuple(orders), time, repr(case["acts16"]))
+    # admissible: every vector has at least N entries, every order is at most N
+    valid = all(len(v) >= N for v in acts) and all(o <= N for o in orders)
+    key = ("hoad", N, tuple(orders), time, repr(case["acts16"]), repr(sorted(kinds.items(), key=repr)))
     if st == "timeout":
         return "timeout"
-    if st != "ok":
+    if st != "ok" and valid:
         ctx.violation(case, f"HOADmodel raised on admissible arguments: {T}")
         return
-    recs = [(norm(t), tuple(plain(e))) for (t, e) in T.get_edges()]
-    for t, e in recs:
-        if not (len(e) - 1 in apo):
-            ctx.violation(case, f"hyperlink {(t, e)} has size {len(e)}, orders are {orders}")
-        if not edge_ok(e, N):
-            ctx.violation(case, f"hyperlink {(t, e)} has repeated nodes or nodes outside 0..{N-1}")
-        if not (isinstance(t, int) and 0 <= t < time):
-            ctx.violation(case, f"hyperlink {(t, e)} has a time outside [0, {time})")
-    if not set(plain(T.get_nodes())) <= set(range(N)):
-        ctx.violation(case, f"nodes {sorted(plain(T.get_nodes()))} not below {N}")
+    recs = []
+    if st == "ok":
+        recs = [(norm(t), tuple(plain(e))) for (t, e) in T.get_edges()]
+        for t, e in recs:
+            if not any(len(e) - 1 == o for o in orders):
+                ctx.violation(case, f"hyperlink {(t, e)} has size {len(e)}, orders are {orders}")
+            if not edge_ok(e, N):
+                ctx.violation(case, f"hyperlink {(t, e)} has repeated nodes or nodes outside 0..{N-1}")
+            if not (isinstance(t, int) and 0 <= t < t_eff):
+                ctx.violation(case, f"hyperlink {(t, e)} has a time outside [0, {t_eff})")
+        if not set(plain(T.get_nodes())) <= set(range(N)):
+            ctx.violation(case, f"nodes {sorted(plain(T.get_nodes()), key=repr)} not below {N}")
     # ---- correspondence
     entries, okpat = [], True
     for (src, name, a, k, r) in log:
@@ -463,23 +770,48 @@ def check_hoad(ctx, drv, case, secs=8.0):
     ctx.case(key + (repr(entries),), len(recs) >= 1, sample=case)
     ctx.count("hoad_cases")
     ctx.count("hoad_activations", emitted)
+    ctx.count("hoad_longer_vectors", 1 if any(len(v) > N for v in acts) else 0)
+    ctx.count("hoad_raised", 1 if st != "ok" else 0)
     if drv is None:
         return
     if not okpat:
         ctx.disagree(case, "draw pattern is not (random.random() [random.sample])*: "
                      + repr(sorted(set((s, nm) for (s, nm, a, k, r) in log))))
-    want = hgxv.enc_lists(sorted([t] + list(e) for t, e in recs))
-    a = drv.ask(f"hoad {N} {time} {hgxv.enc_list(orders)} {hgxv.enc_lists(acts)} {hgxv.enc_list([e[0] for e in entries])} "
+    want = hgxv.enc_lists(sorted([t] + list(e) for t, e in recs)) if st == "ok" else "raised"
+    a = drv.ask(f"hoad {N} {t_eff} {hgxv.enc_list(orders)} {hgxv.enc_lists(acts)} {hgxv.enc_list([e[0] for e in entries])} "
                 f"{hgxv.enc_list([e[1] for e in entries])} {hgxv.enc_lists([e[2] for e in entries])}")
     if a != want:
-        ctx.disagree(case, f"hoad: model {a[:300]!r}, implementation {want[:300]!r}")
+        ctx.disagree(case, f"hoad: model {a[:300]!r}, implementation {want[:300]!r}"
+                           + (f" ({T})" if st != "ok" else ""))
+
+
+VEC_KINDS = ["list", "list", "list01", "tuple", "np64", "np64", "npint", "dict", "frac"]
 
 
 def gen_hoad(rng):
-    N = rng.randint(2, 7)
-    orders = rng.sample(range(0, min(3, N - 1) + 1), rng.randint(1, 2))
-    acts16 = [[rng.choice([0, 0, 2, 4, 8, 12, 16, 16]) for _ in range(N)] for _ in orders]
-    return {"routine": "hoad", "N": N, "orders": orders, "acts16": acts16, "time": rng.choice([0, 1, 2, 3, 4, 6]),
+    N = rng.choice([0, 1, 2, 2, 3, 3, 4, 4, 5, 6, 7])
+    maxo = min(3, N)
+    orders = rng.sample(range(0, maxo + 1), min(rng.choice([0, 1, 1, 1, 2, 2, 2]), maxo + 1))
+    if orders and rng.random() < 0.04:
+        orders[0] = N + rng.randint(1, 2)                        # malformed: order above N
+        orders = list(dict.fromkeys(orders))
+    acts16 = []
+    for _ in orders:
+        shape = rng.choice(["exact", "exact", "longer", "longer", "longer", "shorter"]) if rng.random() < 0.7 else "exact"
+        v = [rng.choice([0, 0, 2, 4, 8, 12, 16, 16]) for _ in range(N)]
+        if shape == "longer":
+            # surplus entries: the routine must never look at them; they are mostly active
+            v = v + [rng.choice([0, 8, 16, 16, 16]) for _ in range(rng.randint(1, 4))]
+        elif shape == "shorter" and N > 0 and rng.random() < 0.35:
+            v = v[:rng.randint(0, N - 1)]                        # malformed: IndexError when the loop gets there
+        acts16.append(v)
+    time = rng.choice([0, 1, 1, 2, 3, 4, 6])
+    if N <= 3 and rng.random() < 0.03:
+        time = None
+    kinds = {"n": rng.choice(INT_KINDS), "key": rng.choice(INT_KINDS), "time": rng.choice(INT_KINDS),
+             "map": rng.choice(["dict", "dict", "odict", "proxy"]), "vec": [rng.choice(VEC_KINDS) for _ in orders],
+             "positional": rng.random() < 0.3}
+    return {"routine": "hoad", "N": N, "orders": orders, "acts16": acts16, "time": time, "kinds": kinds,
             "ambient": [rng.randint(0, 10 ** 6), rng.randint(0, 10 ** 6)]}
 
 
@@ -490,21 +822,33 @@ def call_result(arg_after, ret, rank):
     return "A " + show_snap(snapshot(arg_after, rank)) + " R " + ("none" if ret is None else show_snap(snapshot(ret, rank)))
 
 
+def seed_calls(log, src):
+    return [a for (sr, name, a, k, r) in log if (sr, name) == (src, "seed")]
+
+
 def check_add(ctx, drv, case, secs=8.0):
     from hypergraphx.generation.random import add_random_edge, add_random_edges
     spec = case["hg"]
     rank = rank_of(spec)
-    hg = build(spec)
+    st0, hg = prepared(case, secs)
+    if st0 == "timeout":
+        return "timeout"
     before = snapshot(hg, rank)
     before_inc = incidence_view(hg)
-    kw = dict(case["kwargs"])
+    kw0 = dict(case["kwargs"])
+    kinds = case.get("kinds", {})
     many = case["k"] is not None
 
     def call():
+        kw = dict(kw0)
+        for name in ("order", "size"):
+            if name in kw:
+                kw[name] = mk_int(kw[name], kinds.get("size"))
         if many:
-            return add_random_edges(hg, case["k"], **kw)
+            return add_random_edges(hg, mk_int(case["k"], kinds.get("k")), **kw)
         return add_random_edge(hg, **kw)
 
+    kw = kw0
     ambient(*case["ambient"])
     with recorder() as rec:
         st, ret = limited(call, secs)
@@ -512,14 +856,15 @@ def check_add(ctx, drv, case, secs=8.0):
     order, size, inplace = kw.get("order"), kw.get("size"), kw.get("inplace", True)
     s = size if size is not None else (order + 1 if order is not None else None)
     valid = case["valid"]
+    what = "add_random_edges" if many else "add_random_edge"
     cmd = (f"addedges {int(inplace)} {case['k']} {opt(order)} {opt(size)} " if many
            else f"addedge {int(inplace)} {opt(order)} {opt(size)} ")
-    key = ("add", repr(spec), case["k"], repr(sorted(kw.items(), key=repr)))
+    key = ("add", repr(spec), case["k"], repr(sorted(kw.items(), key=repr)), repr(sorted(kinds.items())), repr(case.get("prefix")))
     if st == "timeout":
         return "timeout"
     if st == "exc":
         if valid:
-            ctx.violation(case, f"add_random_edge(s) raised on admissible arguments: {ret}")
+            ctx.violation(case, f"{what} raised on admissible arguments: {ret}")
         ctx.case(key + ("rej",), False, sample=case)
         if drv and not valid:
             a = drv.batch([load_line(before), cmd + "-"])[1]
@@ -573,34 +918,42 @@ def check_add(ctx, drv, case, secs=8.0):
     bad = unexpected_sources(log, {("py", "sample"), ("py", "seed")})
     ctx.case(key + (repr(draws),), changed, sample=case)
     ctx.count("add_cases")
-    if drv is None:
-        return
-    if bad:
-        ctx.disagree(case, f"draws from sources the model does not use: {sorted(set(bad))}")
-    want = call_result(hg, ret, rank)
-    if many:
-        a = drv.batch([load_line(before), cmd + hgxv.enc_lists(draws)])[1]
-        want += " ret 1"
-    else:
-        a = drv.batch([load_line(before), cmd + (hgxv.enc_list(draws[0]) if len(draws) == 1 else "-")])[1]
-        if len(draws) != 1:
-            ctx.disagree(case, f"add_random_edge made {len(draws)} random.sample calls")
-    if a != want:
-        ctx.disagree(case, f"{cmd.split()[0]}: model {a!r}, implementation {want!r}")
+    ctx.count("labels_" + spec.get("label_kind", "int"))
+    if drv is not None:
+        if bad:
+            ctx.disagree(case, f"draws from sources the model does not use: {sorted(set(bad))}")
+        sd = kw.get("seed")
+        if seed_calls(log, "py") != ([(sd,)] if sd is not None else []):
+            ctx.disagree(case, f"random.seed calls {seed_calls(log, 'py')} for seed={sd}")
+        want = call_result(hg, ret, rank)
+        if many:
+            a, o = drv.batch([load_line(before), cmd + hgxv.enc_lists(draws), f"obj 0 {int(inplace)}"])[1:]
+            want += " ret 1"
+        else:
+            a, o = drv.batch([load_line(before), cmd + (hgxv.enc_list(draws[0]) if len(draws) == 1 else "-"),
+                              f"obj 0 {int(inplace)}"])[1:]
+            if len(draws) != 1:
+                ctx.disagree(case, f"add_random_edge made {len(draws)} random.sample calls")
+        if a != want:
+            ctx.disagree(case, f"{cmd.split()[0]}: model {a!r}, implementation {want!r}")
+        if o != obj_kind(hg, ret):
+            ctx.disagree(case, f"{what}: the model hands the result back in a {o!r} object, the implementation in {obj_kind(hg, ret)!r}")
+    if not inplace:
+        check_independent(ctx, case, hg, ret, rank, before, before_inc, what)
 
 
 def gen_add(rng, malformed=False):
     spec = gen_hg(rng)
     n = len(spec["labels"])
     many = rng.random() < 0.55
-    s = rng.randint(1, min(n, 4))
+    s = rng.randint(1, max(1, min(n, 4)))
     kw = {"size": s} if rng.random() < 0.5 else {"order": s - 1}
     if rng.random() < 0.7:
         kw["inplace"] = rng.random() < 0.5
     if rng.random() < 0.5:
-        kw["seed"] = rng.randint(0, 1000)
+        kw["seed"] = rng.choice([0, 0, 1, rng.randint(0, 1000), 2 ** 64 + 1])
     k = rng.randint(0, min(4, math.comb(n, s))) if many else None
-    valid = True
+    valid = s <= n or (many and k == 0)
     if malformed:
         valid = False
         m = rng.choice(["both", "neither", "toolarge"])
@@ -612,7 +965,8 @@ def gen_add(rng, malformed=False):
             kw["size"] = n + 1
             if many:
                 k = max(k, 1)
-    return {"routine": "add", "hg": spec, "k": k, "kwargs": kw, "valid": valid,
+    kinds = {"k": rng.choice(INT_KINDS), "size": rng.choice(INT_KINDS)}
+    return {"routine": "add", "hg": spec, "k": k, "kwargs": kw, "valid": valid, "kinds": kinds, "prefix": gen_prefix(rng, spec),
             "ambient": [rng.randint(0, 10 ** 6), rng.randint(0, 10 ** 6)]}
 
 
@@ -630,10 +984,13 @@ def check_shuffle(ctx, drv, case, secs=8.0):
     from hypergraphx.generation.random import random_shuffle, random_shuffle_all_orders
     spec = case["hg"]
     rank = rank_of(spec)
-    hg = build(spec)
+    st0, hg = prepared(case, secs)
+    if st0 == "timeout":
+        return "timeout"
     before = snapshot(hg, rank)
     before_inc = incidence_view(hg)
     kw = dict(case["kwargs"])
+    kinds = case.get("kinds", {})
     pn, pd = case["p"]
     allo = case["all_orders"]
     if case.get("p_given", True):
@@ -642,10 +999,19 @@ def check_shuffle(ctx, drv, case, secs=8.0):
     cur_by_size = {s: [tuple(sorted(rank[norm(x)] for x in e)) for e in hg.get_edges(size=s)] for s in sizes_order}
 
     def call():
+        k2 = dict(kw)
+        for name in ("order", "size"):
+            if name in k2:
+                k2[name] = mk_int(k2[name], kinds.get("size"))
+        if "p" in k2 and kinds.get("p") in ("np64f", "np32f"):
+            k2["p"] = mk_float(k2["p"], kinds.get("p"))         # dyadic: exact in float32 too
+        if "seed" in k2:
+            k2["seed"] = mk_int(k2["seed"], kinds.get("seed"))
         if allo:
-            return random_shuffle_all_orders(hg, **kw)
-        return random_shuffle(hg, **kw)
+            return random_shuffle_all_orders(hg, **k2)
+        return random_shuffle(hg, **k2)
 
+    what = "random_shuffle_all_orders" if allo else "random_shuffle"
     ambient(*case["ambient"])
     with recorder() as rec:
         st, ret = limited(call, secs)
@@ -657,7 +1023,7 @@ def check_shuffle(ctx, drv, case, secs=8.0):
         cmd = f"shuffleall {int(inplace)} {pn} {pd} {hgxv.enc_list(sizes_order)} "
     else:
         cmd = f"shuffle {int(inplace)} {opt(order)} {opt(size)} {pn} {pd} {int(pres)} "
-    key = ("shuffle", allo, repr(spec), repr(sorted(kw.items(), key=repr)))
+    key = ("shuffle", allo, repr(spec), repr(sorted(kw.items(), key=repr)), repr(sorted(kinds.items())), repr(case.get("prefix")))
     if st == "timeout":
         return "timeout"
     if st == "exc" or not valid:
@@ -723,16 +1089,41 @@ def check_shuffle(ctx, drv, case, secs=8.0):
                 for e in out[2]:
                     if len(e) == s and e not in kept and not set(e) <= pool_nodes:
                         ctx.violation(case, f"replacement hyperedge {e} uses nodes outside the rewired hyperedges {sorted(pool_nodes)}")
+        # the same without the recording: a new hyperedge of a shuffled size only uses nodes of the argument's hyperedges
+        # of that size, and the number of hyperedges of that size does not grow (every rewired hyperedge keeps its size)
+        for s in targets:
+            old_nodes = set(x for e in before[2] if len(e) == s for x in e)
+            for e in out[2]:
+                if len(e) == s and e not in before[2] and not set(e) <= old_nodes:
+                    ctx.violation(case, f"new hyperedge {e} uses nodes that are in no size-{s} hyperedge of the argument")
+            n_old, n_new = sum(1 for e in before[2] if len(e) == s), sum(1 for e in out[2] if len(e) == s)
+            if n_new > n_old:
+                ctx.violation(case, f"{n_new} hyperedges of size {s} after the shuffle, {n_old} before")
     nontrivial = (replaced_some and kept_some) or (pn == 0 and before[0] and any(r[1] for r in before[2].values()))
     ctx.case(key + (repr([(p["idx"], p["choices"]) for p in parts]),), nontrivial, sample=case)
     ctx.count("shuffle_cases")
     ctx.count("shuffle_p0", 1 if pn == 0 else 0)
-    if drv is None:
-        return
+    ctx.count("labels_" + spec.get("label_kind", "int"))
+    if drv is not None:
+        shuffle_correspondence(ctx, drv, case, hg, ret, rank, before, log, parts, okpat, cmd, kw, allo, inplace,
+                               sizes_order, cur_by_size, targets, what)
+    if not inplace:
+        check_independent(ctx, case, hg, ret, rank, before, before_inc, what)
+
+
+def shuffle_correspondence(ctx, drv, case, hg, ret, rank, before, log, parts, okpat, cmd, kw, allo, inplace, sizes_order,
+                           cur_by_size, targets, what):
     if not okpat:
         ctx.disagree(case, "draw pattern is not (random.sample np.random.choice*)*: "
                      + repr(sorted(set((s_, nm) for (s_, nm, a, k, r) in log))))
+    sd = kw.get("seed")
+    want_seeds = ([(sd,)] * (len(sizes_order) if allo else 1)) if sd is not None else []
+    if [tuple(norm(x) for x in a) for a in seed_calls(log, "np")] != want_seeds:
+        ctx.disagree(case, f"np.random.seed calls {seed_calls(log, 'np')} for seed={sd} ({len(want_seeds)} expected)")
     want = call_result(hg, ret, rank)
+    o = drv.batch([load_line(before), f"obj {int(allo)} {int(inplace)}"])[1]
+    if o != obj_kind(hg, ret):
+        ctx.disagree(case, f"{what}: the model hands the result back in a {o!r} object, the implementation in {obj_kind(hg, ret)!r}")
     if allo:
         if len(parts) != len(sizes_order):
             ctx.disagree(case, f"{len(parts)} index draws for {len(sizes_order)} sizes")
@@ -781,11 +1172,12 @@ def gen_shuffle(rng, malformed=False):
     if rng.random() < 0.4:
         kw["preserve_degree"] = rng.random() < 0.7
     if rng.random() < 0.5:
-        kw["seed"] = rng.randint(0, 1000)
+        kw["seed"] = rng.choice([0, 0, 1, rng.randint(0, 1000), 2 ** 32 - 1])
     p = rng.choice([(0, 1), (0, 1), (0, 1), (1, 16), (1, 8), (1, 4), (1, 2), (1, 2), (3, 4), (7, 8), (1, 1), (1, 1)])
+    kinds = {"size": rng.choice(INT_KINDS), "seed": rng.choice(INT_KINDS), "p": rng.choice(["py", "py", "np64f", "np32f"])}
     case = {"routine": "shuffle", "hg": spec, "all_orders": allo, "kwargs": kw, "p": list(p), "valid": True,
-            "p_given": not (p == (1, 1) and rng.random() < 0.5), "p_float": rng.random() < 0.5,
-            "ambient": [rng.randint(0, 10 ** 6), rng.randint(0, 10 ** 6)]}
+            "p_given": not (p == (1, 1) and rng.random() < 0.5), "p_float": rng.random() < 0.5, "kinds": kinds,
+            "prefix": gen_prefix(rng, spec), "ambient": [rng.randint(0, 10 ** 6), rng.randint(0, 10 ** 6)]}
     if malformed:
         case["valid"] = False
         m = rng.choice(["both", "neither", "p"]) if not allo else "p"
@@ -821,6 +1213,15 @@ def fixed_cases():
            "valid": True, "p_given": True, "p_float": True, "ambient": amb}
     yield {"routine": "shuffle", "hg": hg, "all_orders": True, "kwargs": {"inplace": False}, "p": [0, 1],
            "valid": True, "p_given": True, "p_float": False, "ambient": amb}
+    # D53: labels that numpy does not keep as they are (tuples; integers beyond int64 next to small / negative ones)
+    for labels in ([[0, 1], [1, 2], [2], [0, 0, 1]], [-3, 5, 2 ** 63 + 1, 2 ** 63 + 2]):
+        hg2 = {"labels": labels, "weighted": False, "node_md": {},
+               "edges": [[[labels[0], labels[1]], 1, 0], [[labels[1], labels[2]], 1, 1], [[labels[2], labels[3]], 1, 0],
+                         [[labels[0], labels[1], labels[2]], 1, 0]]}
+        yield {"routine": "shuffle", "hg": hg2, "all_orders": False, "kwargs": {"size": 2, "inplace": False, "seed": 1},
+               "p": [1, 1], "valid": True, "p_given": True, "p_float": True, "ambient": amb}
+    # an activity vector that describes more individuals than the N simulated ones (the surplus is never read)
+    yield {"routine": "hoad", "N": 3, "orders": [1], "acts16": [[12, 12, 4, 16, 16]], "time": 3, "ambient": amb}
 
 
 def attempt(ctx, drv, case, secs):
@@ -859,15 +1260,25 @@ def run(ctx):
         for case in fixed_cases():
             if not ctx.extra.get("nonreturning_call"):
                 run_case(ctx, drv, case)
-    n = 0 if ctx.extra.get("nonreturning_call") else ctx.scale(6000, 400000)
+    n = 0 if ctx.extra.get("nonreturning_call") else ctx.scale(6000, 300000)
     routines = ["random", "random", "scale_free", "scale_free", "hoad", "add", "add", "shuffle", "shuffle", "shuffle"]
+    first_dis = None
     for i in range(n):
         r = routines[i % len(routines)]
         malformed = r != "hoad" and ctx.rng.random() < 0.12
         case = GENS[r](ctx.rng, malformed) if r != "hoad" else GENS[r](ctx.rng)
         run_case(ctx, drv, case)
-        if ctx.too_many() or ctx.extra.get("nonreturning_call") or (ctx.time_left() is not None and ctx.time_left() < 8):
+        if ctx.extra.get("nonreturning_call") or (ctx.time_left() is not None and ctx.time_left() < 8):
             break
+        if len(ctx.violations) >= 5:
+            break
+        if len(ctx.disagreements) >= 5:
+            # the correspondence is broken; keep the first five reports and go on for a while looking for an input on
+            # which the PROPERTY fails (a failing input says more than 'the code is not the modelled code any more')
+            del ctx.disagreements[5:]
+            first_dis = i if first_dis is None else first_dis
+            if ctx.violations or i - first_dis >= 1500:
+                break
 
 
 def replay(ctx, case):
